@@ -196,6 +196,11 @@ pub fn injected(k: u64) -> io::Error {
 pub enum Aux {
     F32(u32),
     F64(u64),
+    /// `trunc|<bits of d>|<bits of d as f32>`: an f32 conversion of a `Double(d)` parameter
+    Trunc(u64),
+    /// FLOAT parameter `Double(d)` whose `d` is not `f64::from(d as f32)` (cannot normally
+    /// happen): `f32|<bits of d as f32>|<text>|<bits of d>`
+    F32Param(u64),
 }
 
 impl Aux {
@@ -213,7 +218,46 @@ impl Aux {
                 let _ = write!(out, "f64|{:016x}|", bits);
                 push_hex(out, format!("{}", x).as_bytes());
             }
+            Aux::Trunc(bits) => {
+                let d = f64::from_bits(bits);
+                let _ = write!(out, "trunc|{:016x}|{:08x}", bits, (d as f32).to_bits());
+            }
+            Aux::F32Param(bits) => {
+                let x = f64::from_bits(bits) as f32;
+                let _ = write!(out, "f32|{:08x}|", x.to_bits());
+                push_hex(out, format!("{}", x).as_bytes());
+                let _ = write!(out, "|{:016x}", bits);
+            }
         }
         out.push('\n');
+    }
+
+    /// The aux line for a pulled FLOAT parameter with inner `Double(d)`.
+    pub fn float_param(d: f64) -> Aux {
+        let x = d as f32;
+        if f64::from(x).to_bits() == d.to_bits() {
+            Aux::F32(x.to_bits())
+        } else {
+            Aux::F32Param(d.to_bits())
+        }
+    }
+
+    /// Inverse of `render` (used to rebuild the dedup set when appending to an aux file).
+    pub fn parse_line(l: &str) -> Option<Aux> {
+        let f: Vec<&str> = l.split('|').collect();
+        match (f.first().copied(), f.len()) {
+            (Some("f32"), 4) => {
+                let b = u32::from_str_radix(f[1], 16).ok()?;
+                let d = u64::from_str_radix(f[3], 16).ok()?;
+                if f64::from(f32::from_bits(b)).to_bits() == d {
+                    Some(Aux::F32(b))
+                } else {
+                    Some(Aux::F32Param(d))
+                }
+            }
+            (Some("f64"), 3) => Some(Aux::F64(u64::from_str_radix(f[1], 16).ok()?)),
+            (Some("trunc"), 3) => Some(Aux::Trunc(u64::from_str_radix(f[1], 16).ok()?)),
+            _ => None,
+        }
     }
 }
